@@ -541,8 +541,127 @@ def specs(tier):
     return [RewriteLemmas(), Audits(), *code]
 
 
+SMALL_SITES = [
+    # small grammars with implicit trivia where the rewritten site is the LAST item of its rule / sequence, a whole rule body,
+    # or sits before a repetition - the places where a shape-inspecting pass that treats `e ~ x | e` like `e ~ x?` shows
+    # (round-6 seed C08c: a choice "factorizer" added to the default passes)
+    'WHITESPACE = _{ " " }\nb = { "x" ~ "y"? }\na = { b ~ "z"? }',
+    'WHITESPACE = _{ " " }\nb = { "x" }\na = { b ~ b* }',
+    'WHITESPACE = _{ " " }\nCOMMENT = _{ "#" }\nb = { "x" | "y" ~ "x" }\na = { (b ~ ",")* ~ b }',
+    'WHITESPACE = { " " }\nb = { "x" }\na = { "y" ~ b }',
+    'WHITESPACE = _{ " " }\nb = ${ "x" ~ "y"? }\nc = @{ "x" }\na = { (b | c) ~ EOI? }',
+    'b = { "x" ~ "y"? }\na = { b ~ "z"? }',
+]
+
+
+def small_sites(tier: str) -> dict:
+    """every rewrite kind at EVERY site (rule roots included) of a few small trivia grammars, all inputs to length 4,
+    optimizer off and on, interpreter and generated code - compared with the un-rewritten grammar in the same setting"""
+    import itertools
+
+    from pest import Parser
+    from pest.exceptions import PestParsingError
+    from pest.grammar.optimizer import DEFAULT_OPTIMIZER
+    from pest.grammar.rule import GrammarRule
+
+    from replay.refpeg import tagged_tree_of
+
+    from .templates import _gx
+
+    gx = _gx()
+    bad: list[dict[str, Any]] = []
+    n = 0
+    kinds = {k: f for k, f in _all_rewrites(gx).items() if k != "reassoc" and (tier == "thorough" or not k.startswith("nested:"))}
+
+    def observe(parser, gen_parse, text):
+        out = []
+        for f in (parser.parse, gen_parse):
+            try:
+                out.append(("ok", tagged_tree_of(f("a", text))))
+            except PestParsingError:
+                out.append(("fail",))
+            except Exception as ex:  # noqa: BLE001
+                out.append(("raised", type(ex).__name__))
+        return out
+
+    def gen_of(parser):
+        ns: dict[str, Any] = {}
+        exec(compile(parser.generate(), "<g>", "exec"), ns)  # noqa: S102
+        return ns["parse"]
+
+    for text in SMALL_SITES:
+        alphabet = sorted({c for c in "xyz ,#" if c in text or c == " "})
+        inputs = ["".join(t) for ln in range(0, 5) for t in itertools.product(alphabet, repeat=ln)]
+        want = {}
+        for opt in (False, True):
+            base = Parser.from_grammar(text) if opt else Parser.from_grammar(text, optimizer=None)
+            g0 = gen_of(base)
+            want[opt] = {t: observe(base, g0, t) for t in inputs}
+        probe = Parser.from_grammar(text, optimizer=None)
+        sites: list[tuple[str, list[int]]] = []
+
+        def collect(e, rname, pathx):
+            sites.append((rname, pathx))
+            for i, ch in enumerate(e.children()):
+                if type(ch).__name__.endswith("Rule") or type(ch).__name__ in ("Any", "SOI", "EOI"):
+                    continue
+                collect(ch, rname, [*pathx, i])
+
+        for rn, r in probe.rules.items():
+            if type(r).__name__ == "GrammarRule" and rn not in ("WHITESPACE", "COMMENT"):
+                collect(r.expression, rn, [])
+        for kind, fn in kinds.items():
+            for rn, px in sites:
+                for opt in (False, True):
+                    parser = Parser.from_grammar(text, optimizer=None)
+                    counter = [0]
+
+                    def new_rule(e):
+                        counter[0] += 1
+                        nm = f"verif_extracted_{counter[0]}"
+                        parser.rules[nm] = GrammarRule(nm, e, 2)
+                        return gx.Identifier(nm)
+
+                    ctx = {"new_rule": new_rule, "reassoc": lambda e: e}
+
+                    def rebuild(e, pathx):
+                        if not pathx:
+                            return fn(e, ctx)
+                        kids = list(e.children())
+                        kids[pathx[0]] = rebuild(kids[pathx[0]], pathx[1:])
+                        return e.with_children(kids)
+
+                    try:
+                        parser.rules[rn].expression = rebuild(parser.rules[rn].expression, px)
+                    except Exception:  # noqa: BLE001
+                        continue
+                    if opt:
+                        DEFAULT_OPTIMIZER.optimize(parser.rules)
+                    try:
+                        g1 = gen_of(parser)
+                    except Exception as ex:  # noqa: BLE001
+                        bad.append({"grammar": text, "rewrite": kind, "rule": rn, "site": px, "what": f"generate/compile raised {type(ex).__name__}"})
+                        continue
+                    for t in inputs:
+                        n += 1
+                        got = observe(parser, g1, t)
+                        if got != want[opt][t]:
+                            bad.append({"grammar": text, "rewrite": kind, "rule": rn, "site": px, "optimized": opt, "text": t, "want": str(want[opt][t])[:150], "got": str(got)[:150]})
+                            break
+                    if len(bad) > 3:
+                        break
+                if len(bad) > 3:
+                    break
+            if len(bad) > 3:
+                break
+        if len(bad) > 3:
+            break
+    return {"name": "c08-small-sites", "kind": "bounded stand-in (every rewrite kind at every site of small trivia grammars; four modes)", "evaluations": n,
+            "bound": f"{len(SMALL_SITES)} grammars x every site x {len(kinds)} rewrite kinds x all inputs to length 4 x optimizer on/off x interpreter/generated", "violation": bool(bad), "details": bad[:3]}
+
+
 def extra_checks(tier, seed):
-    return [differential(tier, seed)]
+    return [differential(tier, seed), small_sites(tier)]
 
 
 def concretise(tier, seed, refuted, undecided, known):
